@@ -131,6 +131,24 @@ class CallMixin(ExprMixin):
             if n in C.SPECFNS:
                 args = [self.ev1(a, st)[1] for a in e.args]
                 return [(st, C.SPECFNS[n](self, st, *args))]
+        if ftext == "super().__init__" and not self.spec and "." in self.c.fname:
+            # `super().__init__(...)` of a class with one base class defined in the same module: the base constructor's
+            # body runs on the same object (inlined; a base class from elsewhere is outside the verified text)
+            cls = self.c.fname.split(".")[0]
+            node = self.module.classes.get(cls)
+            bases = [b.id for b in (node.bases if node is not None else []) if isinstance(b, ast.Name)]
+            if len(bases) != 1 or bases[0] not in self.module.classes:
+                raise Unsupported("super().__init__ of %s: base class not in this module (line %s)" % (cls, self.cur_line))
+            try:
+                bnode = self.module.func("%s.__init__" % bases[0])
+            except Exception:
+                raise Unsupported("super().__init__ of %s: %s has no __init__ (line %s)" % (cls, bases[0], self.cur_line))
+            res = []
+            for s, vals in self.ev_list(list(e.args) + [k.value for k in e.keywords], st):
+                args = vals[:len(e.args)]
+                kw = {k.arg: v for k, v in zip(e.keywords, vals[len(e.args):])}
+                res.extend(self.inline_node(s, "%s.__init__" % bases[0], bnode, s.env.get("self"), args, kw))
+            return res
         # pattern "callee" matches any call of it, "callee/N" only calls with N positional arguments,
         # "callee#K" only the K-th call of it in the function's source text (0-based)
         hooks_b = [h for h in self.c.hooks if h[0] == "before" and
@@ -438,6 +456,17 @@ class CallMixin(ExprMixin):
                     res.append((s, V(BOOL, z3.Or([self.exc_is(o.t, nm) for nm in names]))))
                 elif isinstance(o.ty, Opt) and o.ty.inner == EXC:
                     res.append((s, V(BOOL, z3.And(o.t != 0, z3.Or([self.exc_is(o.t, nm) for nm in names])))))
+                elif isinstance(o.ty, (List, Set, Dict)):
+                    # a container type of the model stands for the Python types it may be at run time: the test is true
+                    # when all of them are named, false when none is, unknown otherwise
+                    kinds = {List: {"list", "tuple"}, Set: {"set", "frozenset"}, Dict: {"dict", "defaultdict", "OrderedDict"}}[type(o.ty)]
+                    hit = kinds & set(names)
+                    if hit == kinds or (isinstance(o.ty, Set) and "set" in hit) or (isinstance(o.ty, Dict) and "dict" in hit):
+                        res.append((s, T.boolval(True)))
+                    elif not hit:
+                        res.append((s, T.boolval(False)))
+                    else:
+                        res.append((s, V(BOOL, z3.FreshConst(z3.BoolSort(), "isinst"))))
                 else:
                     tn = {"int": INT, "bool": BOOL, "bytes": BYTES, "bytearray": BYTES, "str": STR}
                     oty = o.ty
@@ -1127,9 +1156,10 @@ class CallMixin(ExprMixin):
         return [(st, res)]
 
     def inline_call(self, st, cls, name, recv, args, kw, node):
-        from . import source
         qual = ("%s.%s" % (self.real_class_name(cls), name)) if cls else name
-        fnode = self.module.func(qual)
+        return self.inline_node(st, qual, self.module.func(qual), recv, args, kw)
+
+    def inline_node(self, st, qual, fnode, recv, args, kw):
         fake = C.Contract("%s:%s" % (self.module.dotted, qual), self.pid)
         env = self.bind_args(fake, fnode, recv, args, kw, st)
         s = st.copy()
